@@ -429,7 +429,7 @@ class Run:
             if op in ("++", "--"):
                 lv = self.lvalue(n["e"], fr)
                 old = self._load(lv)
-                new = C(old[1] + (1 if op == "++" else -1)) if is_const(old) else ("ap", op, old)
+                new = lin_add(old, C(1 if op == "++" else -1))
                 self._save(lv, new)
                 return old if n.get("post") else new
             t = self.ev(n["e"], fr)
@@ -673,7 +673,7 @@ class Run:
         if op in ("++", "--") and len(args) >= 1:
             lv = self.lvalue(args[0], fr)
             old = self._load(lv)
-            new = ("ap", op, old)
+            new = lin_add(old, C(1 if op == "++" else -1))      # iterators advance like integers: ++ is + 1
             self._save(lv, new)
             return old if len(args) == 2 else new
         if op == "->" and len(args) == 1:
